@@ -10,5 +10,6 @@ func main() {
 		"c08": c08,
 		"c02": c02,
 		"c01": c01,
+		"c11": c11,
 	})
 }
